@@ -36,6 +36,15 @@ func (e InvalidNumberLiteral) Error() string {
 	return fmt.Sprintf("invalid number literal: '%s'", e.Source)
 }
 
+type InvalidAccountName struct {
+	parser.Range
+	Name string
+}
+
+func (e InvalidAccountName) Error() string {
+	return fmt.Sprintf("invalid account name: '%s'", e.Name)
+}
+
 type MetadataNotFound struct {
 	parser.Range
 	Account string
